@@ -47,6 +47,15 @@ func (t *Telnet) handleControlCharResponse(ctrlBuf []byte, c byte) ([]byte, erro
 		}
 	} else if len(ctrlBuf) == 1 && util.ByteIsAny(c, []byte{do, dont, will, wont}) {
 		ctrlBuf = append(ctrlBuf, c)
+	} else if len(ctrlBuf) == 1 {
+		// not an option negotiation: either a two byte command (NOP, GA, ...) which is complete now, or
+		// an escaped IAC (IAC IAC) which stands for one data byte 0xff. either way we are back to
+		// plain data, without this everything up to the next DO/DONT/WILL/WONT byte was dropped
+		ctrlBuf = make([]byte, 0)
+
+		if c == iac {
+			t.initialBuf = append(t.initialBuf, c)
+		}
 	} else if len(ctrlBuf) == 2 { //nolint:mnd
 		cmd := ctrlBuf[1:2][0]
 		ctrlBuf = make([]byte, 0)
